@@ -2276,6 +2276,10 @@ class Engine(object):
                     finally:
                         self.module = saved
                 return a
+            if obj.cls is object and not getattr(self, 'in_spec', False):
+                # a pure double (stand-in for a library object or a neighbour): the code uses a part of it the contract does not
+                # model -- outside the model, i.e. undecided (it may be a perfectly good rewrite), never a frame violation
+                raise Unsupported('the code uses .%s of %s, which the contract does not model' % (name, obj.name or 'a double'))
             ex = PExc(AttributeError, tag=name)
             ex.unmodelled = True
             raise PyRaise(ex)
@@ -2898,6 +2902,9 @@ class Engine(object):
         if fn is getattr:
             if is_sym(args[1]):
                 raise Unsupported('getattr with symbolic name')
+            if len(args) > 2 and isinstance(args[0], PObj) and args[0].cls is object and args[1] not in args[0].fields \
+                    and not callable(args[0].fields.get('__getattr_hook__')):
+                return args[2]           # a double without that attribute: the default (the contract decides what the double has)
             try:
                 return self.getattr(args[0], args[1])
             except PyRaise:
